@@ -461,7 +461,9 @@ def worker(job):
         for o in ex.explore():
             lid = len(lines) + 1
             lines.append({'id': lid, 'db0': db0, 'reqs': areqs, 'resps': o['resps'],
-                          'commits': o['commits'], 'final': o['final']})
+                          'commits': o['commits'], 'final': o['final'],
+                          # rows the projection cannot show: duplicate allocation rows, rows of missing providers
+                          'residue': len(o['extra'].get('dangling', []))})
             meta[lid] = {'label': label, 'schedule': ''.join(o['schedule']),
                          'executed': o['executed']}
             # the commits that changed the abstract database, in commit order
